@@ -67,7 +67,7 @@ func init() {
 			"c07.tcp.disabled", "c07.reply+data-coalesced", "c07.http.407-then-ok", "c07.frag.bytewise", "c07.domain=255", "c07.user=255", "c07.pass=255",
 			"c07.abort.EACCES", "c07.abort.ENETDOWN", "c07.abort.ENETUNREACH", "c07.abort.ENETRESET", "c07.abort.ECONNABORTED", "c07.abort.ECONNRESET",
 			"c07.abort.ETIMEDOUT", "c07.abort.ECONNREFUSED", "c07.abort.EHOSTDOWN", "c07.abort.EHOSTUNREACH", "c07.abort.ErrDomainNameLookup", "c07.abort.ErrOther",
-			"c07.path.writeto",
+			"c07.path.writeto", "c07.auth.empty-user-table",
 		},
 	})
 }
@@ -301,6 +301,11 @@ func (sc *scen) hasUser(name string) bool {
 func genUsers(s *simrt.Sim, sc *scen) {
 	http := sc.proto == pHTTP
 	n := 1 + s.Choose(4)
+	if s.GenChance(20) {
+		// authentication enabled with an empty user table: nobody may be let in
+		n = 0
+		s.Probe("c07.auth.empty-user-table")
+	}
 	for i := 0; i < n; i++ {
 		u := user{genStr(s, http, true), genStr(s, http, false)}
 		if http && s.GenChance(16) {
@@ -717,6 +722,21 @@ func (p *preConn) Read(b []byte) (int, error) {
 		return n, nil
 	}
 	return p.TCPConn.Read(b)
+}
+
+// WriteTo keeps the embedded connection's WriteTo from skipping the buffered bytes.
+func (p *preConn) WriteTo(w io.Writer) (int64, error) {
+	var n int64
+	for len(p.pre) > 0 {
+		k, err := w.Write(p.pre)
+		n += int64(k)
+		p.pre = p.pre[k:]
+		if err != nil {
+			return n, err
+		}
+	}
+	m, err := p.TCPConn.WriteTo(w)
+	return n + m, err
 }
 
 func sameTarget(got, want conn.Addr) bool {
